@@ -3,6 +3,9 @@
 #include "hashbuffer.h"
 #include <new>
 #include <cstddef>
+#include <thread>
+#include <tuple>
+#include <functional>
 #define VF extern "C" __attribute__((noinline, used))
 
 // ---- runcrypt
@@ -66,4 +69,27 @@ VF u8_t vf_mc_threads(multicry_master *m) { return m->THREADS_NUM; }
 // AesEncrypt/AesDecrypt are private to aesmode.cpp: mirror of their layout (Aesmode base followed by the block-cipher object)
 struct vf_modemirror : Aesmode { encryaes crypt; vf_modemirror(u8_t *k, const u8_t *iv) : Aesmode(iv), crypt(k) {} void runcry(u8_t *) override {} };
 VF const u8_t *vf_mode_key(Aesmode *m) { return reinterpret_cast<vf_modemirror *>(m)->crypt.key.init_key; }
+VF u8_t *vf_bg_buflst(void) { buffergroup *g = buffergroup::instance; return g ? (u8_t *)g->buflst : 0; }
+VF u32_t vf_bg_state(u32_t i) { buffergroup *g = buffergroup::instance; return (u32_t)g->ctrl[i].state; }
+VF u32_t vf_bg_nbuf(void) { buffergroup *g = buffergroup::instance; return g ? g->size : 0; }
+VF u32_t vf_iobuffer_size(void) { return sizeof(iobuffer); }
+VF u32_t vf_iobuffer_data_size(void) { return iobuffer::sum; }
+// the pipeline exactly as execute_encrypt/execute_decrypt drive it (set up, run, tear down), without header/MAC
+VF void vf_pipe_run(FILE *fin, FILE *fout, int ispadding, u8_t threads, Aesmode **modes)
+{
+  buffergroup::get_instance()->set_buffergroup(threads, fin, fout, ispadding != 0);
+  multicry_master m(threads);
+  m.run_multicry(modes, [](std::string, size_t) -> void {});
+  buffergroup::del_instance();
+}
+VF Aesmode *vf_mode_make(u8_t *key, const u8_t *iv, int isenc, u8_t type) { AesFactory f(key); f.loadiv(iv); return f.createCryMaster(isenc != 0, type); }
+// decode the argument pack that run_multicry hands to std::thread (used by the scheduler model of thread creation)
+using vf_inv_t = std::thread::_Invoker<std::tuple<void (*)(u8_t, Aesmode &), u8_t, std::reference_wrapper<Aesmode>>>;
+VF void vf_thread_decode(std::thread::_State *s, void **fn, u8_t *id, Aesmode **m)
+{
+  auto *p = static_cast<std::thread::_State_impl<vf_inv_t> *>(s);
+  *fn = (void *)std::get<0>(p->_M_func._M_t);
+  *id = std::get<1>(p->_M_func._M_t);
+  *m = &std::get<2>(p->_M_func._M_t).get();
+}
 VF u32_t vf_buf_sz(void) { return iobuffer::BUF_SZ; }
